@@ -70,7 +70,7 @@ Proof. intros [| |] s [k0|] p k d H; cbn in H; crush. Qed.
 Lemma emit_required : forall t s p s' w,
   required t = true -> In (Wire s' w) (emit (spec_gate (has t) (required t)) s (session t) p) ->
   exists k, session t = Some k /\ w = Prot k Tx p.
-Proof. intros [[k|] r] s p s' w Hr H; cbn in Hr; subst r; cbn in H; crush. cbn. eauto. Qed.
+Proof. intros [[k|] r dg] s p s' w Hr H; cbn in Hr; subst r; cbn in H; crush. cbn. eauto. Qed.
 
 Lemma unprotect_some : forall ks w d,
   unprotect ks w = Some d -> exists k p, ks = Some k /\ w = Prot k Rx p /\ d = Auth k p.
@@ -83,13 +83,13 @@ Lemma accept_required : forall t w d,
   required t = true -> accept (spec_rgate (has t) (required t)) (session t) w = Some d ->
   exists k p, session t = Some k /\ w = Prot k Rx p /\ d = Auth k p.
 Proof.
-  intros [[k|] r] w d Hr H; cbn in Hr; subst r; cbn [has session required spec_rgate accept] in H.
+  intros [[k|] r dg] w d Hr H; cbn in Hr; subst r; cbn [has session required spec_rgate accept] in H.
   - apply unprotect_some in H. exact H.
   - discriminate H.
 Qed.
 
 Ltac step_cases Hin :=
-  cbn [step snd fst] in Hin; gates;
+  cbn [step snd fst] in Hin; unfold emit_try in Hin; gates;
   repeat match type of Hin with
          | context [match spec_gate ?h ?r with _ => _ end] => destruct (spec_gate h r) eqn:?; cbn [snd fst] in Hin
          | context [match accept ?g ?k ?w with _ => _ end] => destruct (accept g k w) eqn:?; cbn [snd fst] in Hin
@@ -154,12 +154,20 @@ Proof.
   apply emit_sock in H. destruct H as [_ Hp]. cbn in Hp. eauto.
 Qed.
 
+Lemma plain_rtcp_path_unprotected : forall s o,
+  plain_rtcp_path s o = true -> required (a s) = false /\ session (a s) = None.
+Proof.
+  intros [[sa ra da] sb br cl] o H. destruct o; try discriminate H. destruct w; try discriminate H.
+  cbn [plain_rtcp_path a required session has] in H. gates.
+  destruct sa, ra; cbn in H; try discriminate H. auto.
+Qed.
+
 (* ------------------------------------------------------------------ histories *)
 Lemma step_required : forall s o,
   required (a (fst (step s o))) = required (a s) /\ required (b (fst (step s o))) = required (b s).
 Proof.
-  intros [[sa ra] [sb rb] br cl] o.
-  destruct o; cbn [step a b session required bridge closed has snd fst];
+  intros [[sa ra da] [sb rb db] br cl] o.
+  destruct o; cbn [step a b session required dgram bridge closed has snd fst]; unfold emit_try;
     repeat match goal with
            | |- context [match ?x with _ => _ end] => destruct x; cbn
            end; auto.
@@ -168,8 +176,8 @@ Qed.
 Lemma step_session_a : forall s o,
   session (a (fst (step s o))) = match o with InstallKeys k => Some k | _ => session (a s) end.
 Proof.
-  intros [[sa ra] [sb rb] br cl] o.
-  destruct o; cbn [step a b session required bridge closed has snd fst];
+  intros [[sa ra da] [sb rb db] br cl] o.
+  destruct o; cbn [step a b session required dgram bridge closed has snd fst]; unfold emit_try;
     repeat match goal with
            | |- context [match ?x with _ => _ end] => destruct x; cbn
            end; auto.
@@ -178,8 +186,8 @@ Qed.
 Lemma step_session_b : forall s o,
   session (b (fst (step s o))) = match o with TInstallKeys k => Some k | _ => session (b s) end.
 Proof.
-  intros [[sa ra] [sb rb] br cl] o.
-  destruct o; cbn [step a b session required bridge closed has snd fst];
+  intros [[sa ra da] [sb rb db] br cl] o.
+  destruct o; cbn [step a b session required dgram bridge closed has snd fst]; unfold emit_try;
     repeat match goal with
            | |- context [match ?x with _ => _ end] => destruct x; cbn
            end; auto.
@@ -255,11 +263,11 @@ Proof.
 Qed.
 
 (* ---- C14_no_clear_out *)
-Theorem no_clear_out : forall rb ops i outs w,
-  nth_error (trace (init true rb) ops) i = Some outs -> In (Wire SockA w) outs ->
+Theorem no_clear_out : forall da db rb ops i outs w,
+  nth_error (trace (init_on da db true rb) ops) i = Some outs -> In (Wire SockA w) outs ->
   exists k p, w = Prot k Tx p /\ last_a None (firstn i ops) = Some k /\ In (InstallKeys k) (firstn i ops).
 Proof.
-  intros rb ops i outs w Hn Hin.
+  intros da db rb ops i outs w Hn Hin.
   apply trace_nth in Hn. destruct Hn as (o & Ho & ->).
   apply step_wire_a in Hin.
   - destruct Hin as (k & p & Hs & ->). rewrite run_session_a in Hs. cbn in Hs.
@@ -267,11 +275,11 @@ Proof.
   - rewrite (proj1 (run_required _ _)). reflexivity.
 Qed.
 
-Theorem no_clear_out_bridge : forall ra ops i outs w,
-  nth_error (trace (init ra true) ops) i = Some outs -> In (Wire SockB w) outs ->
+Theorem no_clear_out_bridge : forall da db ra ops i outs w,
+  nth_error (trace (init_on da db ra true) ops) i = Some outs -> In (Wire SockB w) outs ->
   exists k p, w = Prot k Tx p /\ last_b None (firstn i ops) = Some k /\ In (TInstallKeys k) (firstn i ops).
 Proof.
-  intros ra ops i outs w Hn Hin.
+  intros da db ra ops i outs w Hn Hin.
   apply trace_nth in Hn. destruct Hn as (o & Ho & ->).
   apply step_wire_b in Hin.
   - destruct Hin as (k & p & Hs & ->). rewrite run_session_b in Hs. cbn in Hs.
@@ -279,29 +287,29 @@ Proof.
   - rewrite (proj2 (run_required _ _)). reflexivity.
 Qed.
 
-Corollary silent_before_keys : forall rb ops i outs w,
-  nth_error (trace (init true rb) ops) i = Some outs ->
+Corollary silent_before_keys : forall da db rb ops i outs w,
+  nth_error (trace (init_on da db true rb) ops) i = Some outs ->
   (forall k, ~ In (InstallKeys k) (firstn i ops)) -> ~ In (Wire SockA w) outs.
 Proof.
-  intros rb ops i outs w Hn Hno Hin.
-  destruct (no_clear_out _ _ _ _ _ Hn Hin) as (k & p & _ & _ & Hk). exact (Hno k Hk).
+  intros da db rb ops i outs w Hn Hno Hin.
+  destruct (no_clear_out _ _ _ _ _ _ _ Hn Hin) as (k & p & _ & _ & Hk). exact (Hno k Hk).
 Qed.
 
-Corollary bridge_silent_before_keys : forall ra ops i outs w,
-  nth_error (trace (init ra true) ops) i = Some outs ->
+Corollary bridge_silent_before_keys : forall da db ra ops i outs w,
+  nth_error (trace (init_on da db ra true) ops) i = Some outs ->
   (forall k, ~ In (TInstallKeys k) (firstn i ops)) -> ~ In (Wire SockB w) outs.
 Proof.
-  intros ra ops i outs w Hn Hno Hin.
-  destruct (no_clear_out_bridge _ _ _ _ _ Hn Hin) as (k & p & _ & _ & Hk). exact (Hno k Hk).
+  intros da db ra ops i outs w Hn Hno Hin.
+  destruct (no_clear_out_bridge _ _ _ _ _ _ _ Hn Hin) as (k & p & _ & _ & Hk). exact (Hno k Hk).
 Qed.
 
 (* ---- C14_no_clear_in *)
-Theorem no_clear_in : forall rb ops i outs snk d,
-  nth_error (trace (init true rb) ops) i = Some outs -> In (Deliver snk d) outs -> inbound snk = true ->
+Theorem no_clear_in : forall da db rb ops i outs snk d,
+  nth_error (trace (init_on da db true rb) ops) i = Some outs -> In (Deliver snk d) outs -> inbound snk = true ->
   exists k p, d = Auth k p /\ last_a None (firstn i ops) = Some k /\
               (nth_error ops i = Some (RecvRtp (Prot k Rx p)) \/ nth_error ops i = Some (RecvRtcp (Prot k Rx p))).
 Proof.
-  intros rb ops i outs snk d Hn Hin Hinb.
+  intros da db rb ops i outs snk d Hn Hin Hinb.
   apply trace_nth in Hn. destruct Hn as (o & Ho & ->).
   apply step_deliver in Hin; [|rewrite (proj1 (run_required _ _)); reflexivity|exact Hinb].
   destruct Hin as (k & p & Hs & -> & Hop). rewrite run_session_a in Hs. cbn in Hs.
@@ -309,12 +317,12 @@ Proof.
   destruct Hop as [->| ->]; [left|right]; exact Ho.
 Qed.
 
-Theorem bridge_in : forall rb ops i outs w,
-  nth_error (trace (init true rb) ops) i = Some outs -> In (Wire SockB w) outs ->
+Theorem bridge_in : forall da db rb ops i outs w,
+  nth_error (trace (init_on da db true rb) ops) i = Some outs -> In (Wire SockB w) outs ->
   exists k p, nth_error ops i = Some (RecvRtp (Prot k Rx p)) /\ wire_pid w = p /\
               last_a None (firstn i ops) = Some k.
 Proof.
-  intros rb ops i outs w Hn Hin.
+  intros da db rb ops i outs w Hn Hin.
   apply trace_nth in Hn. destruct Hn as (o & Ho & ->).
   apply step_bridge_in in Hin; [|rewrite (proj1 (run_required _ _)); reflexivity].
   destruct Hin as (k & p & Hs & -> & Hp). rewrite run_session_a in Hs. cbn in Hs.
@@ -340,8 +348,8 @@ Proof.
     constructor. exact IH.
 Qed.
 
-Definition safe_history (ra rb : bool) (ops : list op) : Prop :=
-  forall i outs, nth_error (trace (init ra rb) ops) i = Some outs ->
+Definition safe_history (da db ra rb : bool) (ops : list op) : Prop :=
+  forall i outs, nth_error (trace (init_on da db ra rb) ops) i = Some outs ->
     (ra = true -> forall w, In (Wire SockA w) outs ->
         exists k p, w = Prot k Tx p /\ last_a None (firstn i ops) = Some k /\ In (InstallKeys k) (firstn i ops)) /\
     (rb = true -> forall w, In (Wire SockB w) outs ->
@@ -353,19 +361,19 @@ Definition safe_history (ra rb : bool) (ops : list op) : Prop :=
         exists k p, nth_error ops i = Some (RecvRtp (Prot k Rx p)) /\ wire_pid w = p /\
           last_a None (firstn i ops) = Some k).
 
-Theorem all_histories_safe : forall ra rb ops, safe_history ra rb ops.
+Theorem all_histories_safe : forall da db ra rb ops, safe_history da db ra rb ops.
 Proof.
-  intros ra rb ops i outs Hn. repeat split.
+  intros da db ra rb ops i outs Hn. repeat split.
   - intros -> w Hin. eapply no_clear_out; eauto.
   - intros -> w Hin. eapply no_clear_out_bridge; eauto.
   - intros -> snk d Hin Hinb. eapply no_clear_in; eauto.
   - intros -> w Hin. eapply bridge_in; eauto.
 Qed.
 
-Theorem racing : forall tasks merged ra rb,
-  Interleave tasks merged -> Permutation (List.concat tasks) merged /\ safe_history ra rb merged.
+Theorem racing : forall tasks merged da db ra rb,
+  Interleave tasks merged -> Permutation (List.concat tasks) merged /\ safe_history da db ra rb merged.
 Proof.
-  intros tasks merged ra rb H. split; [exact (interleave_perm _ _ H)|apply all_histories_safe].
+  intros tasks merged da db ra rb H. split; [exact (interleave_perm _ _ H)|apply all_histories_safe].
 Qed.
 
 (* the premises are satisfiable: protected traffic does flow, in both directions and over the bridge *)
@@ -410,6 +418,20 @@ Proof. unfold ice_conn_uses. repeat (constructor; [in_list|]). constructor. Qed.
 
 Lemma ctor_sites_ok : Forall (fun c => ctor_ok c = true) ctor_sites /\ ctor_sites <> [].
 Proof. split; [unfold ctor_sites; repeat (constructor; [reflexivity|]); constructor|discriminate]. Qed.
+
+Lemma carriers_allowed : Forall (fun c => In c allowed_carriers) ice_conn_carriers.
+Proof. unfold ice_conn_carriers. repeat (constructor; [in_list|]). constructor. Qed.
+
+Lemma holders_allowed : Forall (fun c => In c allowed_holders) ice_conn_holders.
+Proof. unfold ice_conn_holders. repeat (constructor; [in_list|]). constructor. Qed.
+
+Lemma trait_impls_allowed :
+  Forall (fun c => In c allowed_trait_impls) ice_conn_trait_impls /\
+  Forall (fun c => In c allowed_receiver_impls) packet_receiver_impls /\ send_macros = [].
+Proof.
+  split; [unfold ice_conn_trait_impls; repeat (constructor; [in_list|]); constructor|].
+  split; [unfold packet_receiver_impls; repeat (constructor; [in_list|]); constructor|reflexivity].
+Qed.
 
 (* the media senders the model is about are present in the census (the model is about code that exists) *)
 Lemma gated_sites_present :
